@@ -35,7 +35,7 @@ func (d *defineBuiltinMethod) setupMethodArgs(
 		case true:
 			argIdentifiers = append(argIdentifiers, argType.GetKey())
 
-			base.SetValueT(
+			base.SetOwnValueT(
 				d.frame,
 				d.targetClass,
 				method,
@@ -52,7 +52,7 @@ func (d *defineBuiltinMethod) setupMethodArgs(
 			}
 
 			argIdentifiers = append(argIdentifiers, id)
-			base.SetValueT(d.frame, d.targetClass, method, id, &argType, isStatic)
+			base.SetOwnValueT(d.frame, d.targetClass, method, id, &argType, isStatic)
 		}
 	}
 
